@@ -10,6 +10,29 @@ import os
 import z3
 
 from .values import *  # noqa
+
+ASSUMED_SITES = {}     # (file, line) -> source text: facts a contract file assumes directly (ctx.assume / vc.assume), reported in the evidence
+
+
+def _note_assumption(depth):
+    """record the contract-file line that states an assumption (callee contracts used modularly, facts of dependencies,
+    arithmetic facts); assumptions made by the engine itself (branch conditions, loop invariants) come from pyvc/ and are skipped"""
+    import sys, linecache
+    try:
+        fr = sys._getframe(depth)
+    except ValueError:
+        return
+    fn = fr.f_code.co_filename
+    if '/contracts/' not in fn:
+        return
+    key = (os.path.basename(fn), fr.f_lineno)
+    if key not in ASSUMED_SITES:
+        txt = linecache.getline(fn, fr.f_lineno).strip()
+        # a comment on the line above is usually the justification
+        prev = linecache.getline(fn, fr.f_lineno - 1).strip()
+        if prev.startswith('#'):
+            txt = prev.lstrip('# ') + ' :: ' + txt
+        ASSUMED_SITES[key] = txt[:260]
 from . import values as V
 
 
@@ -103,11 +126,12 @@ class Ctx(object):
         self.solver_calls += 1
         return r, m
 
-    def assume(self, f):
+    def assume(self, f, _depth=1):
         if f is True:
             return
         if f is False:
             raise PathCut("assume False")
+        _note_assumption(_depth + 1)
         f = z3.simplify(f)
         if z3.is_true(f):
             return
@@ -1322,13 +1346,20 @@ class Interp(object):
             return to_real(za) / to_real(zb)
         if isinstance(op, ast.FloorDiv):
             if za.is_int() and zb.is_int():
-                self.ctx.oblige("safety/floordiv-positive-divisor", zb > 0)
-                return za / zb
+                if self.ctx._check(z3.Not(zb > 0))[0] == z3.unsat:
+                    self.ctx.oblige("safety/floordiv-positive-divisor", zb > 0)
+                    return za / zb
+                # a negative divisor is legal python (floor division); only zero raises
+                self.ctx.oblige("safety/divisor-nonzero", zb != 0)
+                return z3.If(zb > 0, za / zb, (-za) / (-zb))
             raise Unsupported("floor division of reals")
         if isinstance(op, ast.Mod):
             if za.is_int() and zb.is_int():
-                self.ctx.oblige("safety/mod-positive-divisor", zb > 0)
-                return za % zb
+                if self.ctx._check(z3.Not(zb > 0))[0] == z3.unsat:
+                    self.ctx.oblige("safety/mod-positive-divisor", zb > 0)
+                    return za % zb
+                self.ctx.oblige("safety/divisor-nonzero", zb != 0)
+                return za - zb * z3.If(zb > 0, za / zb, (-za) / (-zb))
             raise Unsupported("mod of reals")
         if isinstance(op, ast.Pow):
             return self.lib.power(self, za, b)
